@@ -45,7 +45,11 @@ Judge(e) ==
                 "C01:concatenated-second-datum")
         \cup If(~e.enc_v.ok \/ P.ok, "C02:independent-parse-failed")
         \cup If(~(e.enc_v.ok /\ P.ok) \/ VEq(P.v, e.v), "C02:independent-parse-differs")
-        \cup If(~(e.enc_v.panic \/ e.enc_u.panic \/ e.dec.panic \/ e.dec2.panic), "C01:panic")
+        \cup If(~(e.enc_v.panic \/ e.enc_u.panic \/ e.dec.panic \/ e.dec2.panic \/ e.enc_s.panic), "C01:panic")
+        \* a Decimal written through the serde path: either refused, or the same number in the prescribed layout
+        \cup (IF ~e.enc_s.ok THEN {}
+              ELSE LET PS == ParseAll(e.enc_s.wire, e.s, env) IN
+                   If(PS.ok /\ VEq(PS.v, e.v), "C02:serde-written-decimal-is-another-number"))
         \cup LayoutFails(e, env)
       drift ==
         If(~(e.enc_v.ok /\ P.ok) \/ Enc(P.v, e.s, env) = wire, "writer-layout-not-single-block")
